@@ -134,3 +134,34 @@ Theorem C14_int_literal_exact :
                       /\ parse_literal TINT ("-"%char :: print_dec n) = Some (- n, 1).
 Proof. exact int_literal_exact. Qed.
 Print Assumptions C14_int_literal_exact.
+
+(* ------------------------------------------------------------------ *)
+(** * Non-vacuity of the specification theorems, and sensitivity of the decision procedure *)
+
+(** A small table with a function, a variable, an interface with a variadic method, an integer and
+    a dyadic float constant passes every check: the hypotheses of [C14_complete_means],
+    [C14_forward_means] and [C14_generator_partial] are satisfiable. *)
+Theorem C14_specification_inhabited :
+  check_group ex_group = true /\ g_complete ex_group = true
+  /\ rows_ok const_g ex_group = true
+  /\ (exists t, In t (tp_objs ex_truth) /\ expected (g_release ex_group) t = true)
+  /\ (exists m, In m (w_methods ex_wrapper) /\ existsb is_variadic (wm_params m) = true).
+Proof. exact ex_group_checks. Qed.
+Print Assumptions C14_specification_inhabited.
+
+(** ... and the mis-bindings the property is about are rejected: a function of the same package
+    under another name, a variable by value, a literal off by one, an object of a later release,
+    a missing row, a wrapper method forwarding to another field of the same signature. *)
+Theorem C14_misbindings_rejected :
+  let f := hd (F [] [] [] [] []) (g_files ex_group) in
+  row_ok const_g ex_group f (R 1 (s "fmt/fmt") (s "Println") (FSel (s "fmt") (s "Print"))) = false
+  /\ row_ok const_g ex_group f (R 6 (s "fmt/fmt") (s "Out") (FSel (s "fmt") (s "Out"))) = false
+  /\ row_ok const_g ex_group f (R 4 (s "fmt/fmt") (s "Version") (FLit TINT (s "8"))) = false
+  /\ row_ok const_g ex_group f (R 7 (s "fmt/fmt") (s "Later") (FSel (s "fmt") (s "Later"))) = false
+  /\ complete (G (s "example") 22 true
+                 [F (s "stdlib/example.go") [(s "", s "fmt")] [] (tl (f_rows f)) [ex_wrapper]] [ex_truth]) = false
+  /\ wrapper_ok (W 1 (s "_x") [(s "IValue", FTOther (s "interface{}")); (s "WA", FTFunc [] []); (s "WB", FTFunc [] [])]
+                   [WM (s "A") (s "W") [] [] (BForward false (s "W") (s "WB") [] false);
+                    WM (s "B") (s "W") [] [] (BForward false (s "W") (s "WB") [] false)]) = false.
+Proof. exact ex_mutants_rejected. Qed.
+Print Assumptions C14_misbindings_rejected.
